@@ -6,6 +6,8 @@ construction (every operation builds new lists):
   item     ['int','1'] | ['str','a'] | ['map', [[key, value], ...]] | ['array', [member, ...]]
   sequence a Python list of items; a singleton sequence is represented by the item itself
 """
+import datetime
+import re
 from fractions import Fraction
 from decimal import Decimal
 
@@ -82,6 +84,10 @@ def keynorm(atom):
         return ('num', Fraction(Decimal(v)))
     if t in STRINGY:
         return ('str', v)
+    if t in ('DateTime10', 'DateTime') and re.search(r'(Z|[+-]\d\d:\d\d)$', v):
+        # values with a timezone are the same key when they are the same instant
+        dt = datetime.datetime.fromisoformat(v.replace('Z', '+00:00'))
+        return (t, dt.astimezone(datetime.timezone.utc).isoformat())
     return (t, v)
 
 
@@ -114,6 +120,11 @@ def require_int(v):
     v = norm(v)
     if BOOL_AS_NUM[0] and is_item(v) and v[0] == 'bool':
         return 1 if v[1] else 0
+    if is_item(v) and v[0] == 'UntypedAtomic':
+        # function conversion rules: an xs:untypedAtomic argument is cast to the expected type
+        if not re.fullmatch(r'\s*[+-]?\d+\s*', v[1]):
+            raise ModelError('FORG0001')
+        return int(v[1])
     if not is_item(v) or v[0] not in ('int', 'Integer'):
         raise ModelError('XPTY0004')
     return int(v[1])
